@@ -28,6 +28,8 @@ structure Good (s : St) : Prop where
   res_held : s.res = true → s.opens = true ∧ (s.sp = .sampled ∨ s.sp = .chans ∨ s.sp = .prepared ∨ s.pp.alive)
   over_idle : s.runOver = true → ¬ s.st.running
   started : (s.flag = true ∨ s.rSend > 0) → (s.runOver = true ∨ s.lp.alive ∨ s.sp.owner)
+  decided_active : s.kDecided > 0 → s.st = .active
+  decided_one : s.kDecided ≤ 1
 
 theorem good_init (o : Bool) : Good (init o) := by
   constructor <;> simp [init, LPc.alive, LPc.working, PPc.alive, SPc.inStarting, SPc.owner, SrcState.running]
@@ -45,10 +47,10 @@ macro "lc_open" hs:ident : tactic => `(tactic| (
 
 macro "lc_good" : tactic => `(tactic| (
   intro s s' h hs
-  obtain ⟨st, sEnter, sp, kEnter, kWait, kClean, lp, pp, abortClosed, nbClosed, wg, writing, res, opens, crashed,
+  obtain ⟨st, sEnter, sp, kEnter, kDecided, kWait, kClean, lp, pp, abortClosed, nbClosed, wg, writing, res, opens, crashed,
     fuel, flag, rEnter, rSend, rWait, runOver, stopsDone⟩ := s
-  obtain ⟨h1, h2, h3, h4, h5, h6, h7, h8, h9, h10, h11, h12, h13⟩ := h
-  dsimp only at h1 h2 h3 h4 h5 h6 h7 h8 h9 h10 h11 h12 h13
+  obtain ⟨h1, h2, h3, h4, h5, h6, h7, h8, h9, h10, h11, h12, h13, h14, h15⟩ := h
+  dsimp only at h1 h2 h3 h4 h5 h6 h7 h8 h9 h10 h11 h12 h13 h14 h15
   lc_open hs
   all_goals (constructor <;> dsimp only <;> (try simp only [deactivate]) <;> (try split) <;>
     simp_all [LPc.alive, LPc.working, PPc.alive, SPc.inStarting, SPc.owner, SrcState.running] <;> (try omega) <;> (try grind))))
@@ -79,6 +81,7 @@ theorem good_callStop : ∀ s s' : St, Good s → step s .callStop = some s' →
 theorem good_stopNotActive : ∀ s s' : St, Good s → step s .stopNotActive = some s' → Good s' := by lc_good
 theorem good_stopOnStarting : ∀ s s' : St, Good s → step s .stopOnStarting = some s' → Good s' := by lc_good
 theorem good_stopAlready : ∀ s s' : St, Good s → step s .stopAlready = some s' → Good s' := by lc_good
+theorem good_stopDecide : ∀ s s' : St, Good s → step s .stopDecide = some s' → Good s' := by lc_good
 theorem good_stopSwitched : ∀ s s' : St, Good s → step s .stopSwitched = some s' → Good s' := by lc_good
 theorem good_stopWaited : ∀ s s' : St, Good s → step s .stopWaited = some s' → Good s' := by lc_good
 theorem good_stopCleaned : ∀ s s' : St, Good s → step s .stopCleaned = some s' → Good s' := by lc_good
@@ -124,6 +127,7 @@ theorem good_step {s s' : St} {e : Ev} (h : Good s) (hs : step s e = some s') : 
   | stopNotActive => exact good_stopNotActive s s' h hs
   | stopOnStarting => exact good_stopOnStarting s s' h hs
   | stopAlready => exact good_stopAlready s s' h hs
+  | stopDecide => exact good_stopDecide s s' h hs
   | stopSwitched => exact good_stopSwitched s s' h hs
   | stopWaited => exact good_stopWaited s s' h hs
   | stopCleaned => exact good_stopCleaned s s' h hs
@@ -154,11 +158,11 @@ theorem goodE_init (o : Bool) : GoodE (init o) := by
 
 macro "lc_goodE" : tactic => `(tactic| (
   intro s s' h he hok hs
-  obtain ⟨st, sEnter, sp, kEnter, kWait, kClean, lp, pp, abortClosed, nbClosed, wg, writing, res, opens, crashed,
+  obtain ⟨st, sEnter, sp, kEnter, kDecided, kWait, kClean, lp, pp, abortClosed, nbClosed, wg, writing, res, opens, crashed,
     fuel, flag, rEnter, rSend, rWait, runOver, stopsDone⟩ := s
-  obtain ⟨h1, h2, h3, h4, h5, h6, h7, h8, h9, h10, h11, h12, h13⟩ := h
+  obtain ⟨h1, h2, h3, h4, h5, h6, h7, h8, h9, h10, h11, h12, h13, h14, h15⟩ := h
   obtain ⟨e1, e2, e3, e4⟩ := he
-  dsimp only [stoppers] at h1 h2 h3 h4 h5 h6 h7 h8 h9 h10 h11 h12 h13 e1 e2 e3 e4
+  dsimp only [stoppers] at h1 h2 h3 h4 h5 h6 h7 h8 h9 h10 h11 h12 h13 h14 h15 e1 e2 e3 e4
   simp only [envOK, stoppers] at hok
   lc_open hs
   all_goals try (have hser := e1 (by omega))
@@ -191,6 +195,7 @@ theorem goodE_callStop : ∀ s s' : St, Good s → GoodE s → envOK s .callStop
 theorem goodE_stopNotActive : ∀ s s' : St, Good s → GoodE s → envOK s .stopNotActive = true → step s .stopNotActive = some s' → GoodE s' := by lc_goodE
 theorem goodE_stopOnStarting : ∀ s s' : St, Good s → GoodE s → envOK s .stopOnStarting = true → step s .stopOnStarting = some s' → GoodE s' := by lc_goodE
 theorem goodE_stopAlready : ∀ s s' : St, Good s → GoodE s → envOK s .stopAlready = true → step s .stopAlready = some s' → GoodE s' := by lc_goodE
+theorem goodE_stopDecide : ∀ s s' : St, Good s → GoodE s → envOK s .stopDecide = true → step s .stopDecide = some s' → GoodE s' := by lc_goodE
 theorem goodE_stopSwitched : ∀ s s' : St, Good s → GoodE s → envOK s .stopSwitched = true → step s .stopSwitched = some s' → GoodE s' := by lc_goodE
 theorem goodE_stopWaited : ∀ s s' : St, Good s → GoodE s → envOK s .stopWaited = true → step s .stopWaited = some s' → GoodE s' := by lc_goodE
 theorem goodE_stopCleaned : ∀ s s' : St, Good s → GoodE s → envOK s .stopCleaned = true → step s .stopCleaned = some s' → GoodE s' := by lc_goodE
@@ -237,6 +242,7 @@ theorem goodE_step {s s' : St} {e : Ev} (h : Good s) (he : GoodE s) (hok : envOK
   | stopNotActive => exact goodE_stopNotActive s s' h he hok hs
   | stopOnStarting => exact goodE_stopOnStarting s s' h he hok hs
   | stopAlready => exact goodE_stopAlready s s' h he hok hs
+  | stopDecide => exact goodE_stopDecide s s' h he hok hs
   | stopSwitched => exact goodE_stopSwitched s s' h he hok hs
   | stopWaited => exact goodE_stopWaited s s' h he hok hs
   | stopCleaned => exact goodE_stopCleaned s s' h he hok hs
@@ -266,7 +272,7 @@ theorem goodW_init (o : Bool) : GoodW (init o) := by simp [GoodW, init, pendingR
 
 macro "lc_goodW" : tactic => `(tactic| (
   intro s s' hg hw hwf hs
-  obtain ⟨st, sEnter, sp, kEnter, kWait, kClean, lp, pp, abortClosed, nbClosed, wg, writing, res, opens, crashed,
+  obtain ⟨st, sEnter, sp, kEnter, kDecided, kWait, kClean, lp, pp, abortClosed, nbClosed, wg, writing, res, opens, crashed,
     fuel, flag, rEnter, rSend, rWait, runOver, stopsDone⟩ := s
   have hex := hg.excl
   clear hg
@@ -301,6 +307,7 @@ theorem goodW_callStop : ∀ s s' : St, Good s → GoodW s → Ev.wf .callStop =
 theorem goodW_stopNotActive : ∀ s s' : St, Good s → GoodW s → Ev.wf .stopNotActive = true → step s .stopNotActive = some s' → GoodW s' := by lc_goodW
 theorem goodW_stopOnStarting : ∀ s s' : St, Good s → GoodW s → Ev.wf .stopOnStarting = true → step s .stopOnStarting = some s' → GoodW s' := by lc_goodW
 theorem goodW_stopAlready : ∀ s s' : St, Good s → GoodW s → Ev.wf .stopAlready = true → step s .stopAlready = some s' → GoodW s' := by lc_goodW
+theorem goodW_stopDecide : ∀ s s' : St, Good s → GoodW s → Ev.wf .stopDecide = true → step s .stopDecide = some s' → GoodW s' := by lc_goodW
 theorem goodW_stopSwitched : ∀ s s' : St, Good s → GoodW s → Ev.wf .stopSwitched = true → step s .stopSwitched = some s' → GoodW s' := by lc_goodW
 theorem goodW_stopWaited : ∀ s s' : St, Good s → GoodW s → Ev.wf .stopWaited = true → step s .stopWaited = some s' → GoodW s' := by lc_goodW
 theorem goodW_stopCleaned : ∀ s s' : St, Good s → GoodW s → Ev.wf .stopCleaned = true → step s .stopCleaned = some s' → GoodW s' := by lc_goodW
@@ -320,7 +327,7 @@ theorem goodW_gotRequest (n : Nat) (w : WEff) : ∀ s s' : St, Good s → GoodW 
 
 theorem goodW_reply : ∀ s s' : St, Good s → GoodW s → Ev.wf .reply = true → step s .reply = some s' → GoodW s' := by
   intro s s' _ hw _ hs
-  obtain ⟨st, sEnter, sp, kEnter, kWait, kClean, lp, pp, abortClosed, nbClosed, wg, writing, res, opens, crashed,
+  obtain ⟨st, sEnter, sp, kEnter, kDecided, kWait, kClean, lp, pp, abortClosed, nbClosed, wg, writing, res, opens, crashed,
     fuel, flag, rEnter, rSend, rWait, runOver, stopsDone⟩ := s
   simp only [GoodW] at hw ⊢
   unfold step at hs
@@ -362,6 +369,7 @@ theorem goodW_step {s s' : St} {e : Ev} (hg : Good s) (hw : GoodW s) (hwf : e.wf
   | stopNotActive => exact goodW_stopNotActive s s' hg hw hwf hs
   | stopOnStarting => exact goodW_stopOnStarting s s' hg hw hwf hs
   | stopAlready => exact goodW_stopAlready s s' hg hw hwf hs
+  | stopDecide => exact goodW_stopDecide s s' hg hw hwf hs
   | stopSwitched => exact goodW_stopSwitched s s' hg hw hwf hs
   | stopWaited => exact goodW_stopWaited s s' hg hw hwf hs
   | stopCleaned => exact goodW_stopCleaned s s' hg hw hwf hs
